@@ -371,8 +371,8 @@ func (self Value) getByPath(pathes ...Path) (Value, []int) {
 				messageLen += Len
 			}
 			// the steps below this field must not read beyond the end of its message
-			if end := p.Read + messageLen; end < len(p.Buf) {
-				p.Buf = p.Buf[:end]
+			if messageLen >= 0 && messageLen < len(p.Buf)-p.Read {
+				p.Buf = p.Buf[:p.Read+messageLen]
 			}
 
 			fd := desc.Message().ByNumber(id)
@@ -399,8 +399,8 @@ func (self Value) getByPath(pathes ...Path) (Value, []int) {
 				messageLen += Len
 			}
 			// the steps below this field must not read beyond the end of its message
-			if end := p.Read + messageLen; end < len(p.Buf) {
-				p.Buf = p.Buf[:end]
+			if messageLen >= 0 && messageLen < len(p.Buf)-p.Read {
+				p.Buf = p.Buf[:p.Read+messageLen]
 			}
 
 			fd := desc.Message().ByName(name)
